@@ -41,7 +41,7 @@ from harness.core import f_list
 
 SYNC = {"scheduler": "sync"}
 
-class Hang(Exception):
+class Hang(BaseException):  # BaseException: must not be swallowed by `except Exception` in library code
     pass
 
 
@@ -308,8 +308,18 @@ def check_case(ctx, case, progs=None, nprog=3, seeds=True):
     import dask_array as da
 
     rng = ctx.rng
-    x = build(case)
-    r0 = x.compute(**SYNC)
+    try:
+        x = build(case)
+    except (NotImplementedError, ValueError, TypeError) as e:
+        # refused while building (e.g. choice(replace=False) over several chunks): not wrong data
+        ctx.notes["refused"] = ctx.notes.get("refused", 0) + 1
+        ctx.notes.setdefault("refused_sample", repr(e)[:120] + " " + repr(case)[:200])
+        return None
+    try:
+        r0 = x.compute(**SYNC)
+    except Exception as e:
+        ctx.fail("random:compute-raises", dict(case, error=repr(e)[:300]), "a seeded random array cannot be computed")
+        return None
     key = (case["kind"], case["dist"], len(case["shape"]), max((len(c) for c in case["chunks"]), default=0) > 1, bool(case.get("prefix")))
     ctx.count(("case",) + key)
 
@@ -625,9 +635,8 @@ def search(ctx):
         except Hang:
             ctx.fail("random:hang", case, "building / optimising / computing a random array and its derived programs does not finish within 90 s")
             break
-        except NotImplementedError as e:
-            ctx.notes["refused"] = ctx.notes.get("refused", 0) + 1
-            ctx.notes.setdefault("refused_sample", repr(e)[:120] + " " + repr(case)[:200])
+        except Exception as e:
+            ctx.fail("random:raises", dict(case, error=repr(e)[:300]), "recomputing / rebuilding / deriving from a seeded random array raises")
 
 
 def targeted(ctx):
